@@ -198,7 +198,7 @@ def _enum_grid(tier):
     cases = []
     for nu in range(1, 7):
         for nv in range(1, 7):
-            for mode in ("scalar", "vector", "default", "vector-after-read", "bumps-after-read"):
+            for mode in ("scalar", "vector", "default", "vector-after-read", "bumps-after-read", "regenerate-default", "regenerate-vector"):
                 cases.append({"nu": nu, "nv": nv, "mode": mode, "sx": 2.0 + nu, "sy": 3.0 + nv})
     return cases
 
@@ -206,6 +206,12 @@ def _enum_grid(tier):
 def check_grid(case, ctx):
     nu, nv, mode = case["nu"], case["nv"], case["mode"]
     g = CPGen.GridWeighted(case["sx"], case["sy"])
+    if mode.startswith("regenerate"):
+        # the same generator object was used for another grid (other divisions, own weights, grid read) before
+        g.generate(nu + 1, nv + 2)
+        g.weight = [0.75 + 0.5 * ((3 * i) % 5) for i in range((nu + 2) * (nv + 3))]
+        _ = g.grid
+        ctx.nt(True, "generator-object-reused")
     g.generate(nu, nv)
     base = [[list(pt) for pt in row] for row in g._grid_points] if False else None
     plain = CPGen.Grid(case["sx"], case["sy"])
@@ -235,7 +241,10 @@ def check_grid(case, ctx):
         _ = g.grid
         w = [0.5 + 0.25 * ((5 * i) % 13) for i in range(count)]
         g.weight = list(w)
-    elif mode == "default":
+    elif mode == "regenerate-vector":
+        w = [0.5 + 0.25 * ((7 * i) % 11) for i in range(count)]
+        g.weight = list(w)
+    elif mode in ("default", "regenerate-default"):
         w = [1.0] * count
     got = g.grid
     ctx.check(len(got) == nu + 1 and all(len(r) == nv + 1 for r in got), "grid-shape", "weighted grid has shape %r" % [len(r) for r in got])
